@@ -16,12 +16,15 @@ when the printed form of a tree of the fragment (literals, nonterminals, command
 `fallback_expr` returns that tree, and *every* node of it, in preorder, carries the span that starts at
 the line (1 + line feeds before) and byte column (1 + bytes since the last line feed) of the offset of
 the first character of that node's own text — the characters of the file between the node's two
-offsets are the printed form of that node.  Outside the fragment (descriptions, escapes inside
-literals, `{{{ }}}` with `}`, statement heads, blanks and comments between the items) span soundness is
-decided per grammar by the exact comparison of all spans with the real parser.
+offsets are the printed form of that node.  `span_sound_full` / `span_sound_file` (`Proofs/SpansFull.lean`, `SpansFile.lean`) extend it to the larger
+fragment (escapes, descriptions, juxtaposition), to every admissible layout and to whole files
+including the spans of statement heads.  Outside these fragments span soundness is decided per
+grammar by the exact comparison of all spans with the real parser.
 -/
 import Complgen.Proofs.Position
 import Complgen.Proofs.LadderSpans
+import Complgen.Proofs.SpansFull
+import Complgen.Proofs.SpansFile
 namespace Complgen.Props.C13
 open Complgen Complgen.Parse
 
@@ -102,5 +105,45 @@ example :
     String.ofList (pp 0 e) = "a (b | <C>)... [d]" ∧
     offs 0 7 e = [(7, 25), (7, 8), (9, 21), (10, 17), (10, 11), (14, 17), (22, 25), (23, 24)] := by
   decide
+
+/-- **Span soundness on the larger fragment, any layout** (`Proofs/SpansFull.lean`): escaped literals,
+descriptions, descriptions over groups, words by juxtaposition.  `PlacedL'` says which text each node's
+span covers *as the parser computes it*: a literal with a description spans literal + layout +
+description; `( … ) "d"` starts at the parenthesis; a word and the sequence of its factors carry the
+same span; a parenthesis forced by the context is not part of the node. -/
+theorem span_sound_full (pre : List Char) (e : Expr) (hnf : Full.NF' e) (lay : Full.Layout') (adm : lay.Adm)
+    (rest : List Char) (hrest : Follows rest) (t : List Char) (ht : t = pre ++ Full.ppL' lay 0 e ++ rest)
+    (fuel : Nat) (hfuel : Full.needF e ≤ fuel) :
+    ∃ e', fallback fuel ((PState.init t).adv pre.length) =
+        some ((PState.init t).adv (pre.length + (Full.ppL' lay 0 e).length), e') ∧
+      Full.PlacedL' lay 0 ((PState.init t).adv pre.length) e e' ∧
+      e'.eraseSpans = e.eraseSpans ∧
+      spansOf e' = (Full.offsL' lay 0 pre.length e).map (spanAt (PState.init t)) ∧
+      (Full.offsL' lay 0 pre.length e).map (slice t) = Full.ownTexts lay e ∧
+      ∀ sp ∈ spansOf e', ∃ ab ∈ Full.offsL' lay 0 pre.length e,
+        sp.line = 1 + (t.take ab.1).count '\n' ∧
+        sp.cs = 1 + bytesLen (Pos.lastLine (t.take ab.1)) :=
+  fallback_spans_full_in_file pre e hnf lay adm rest hrest t ht fuel hfuel
+
+/-- **Every span of a whole file points at its construct** (`Proofs/SpansFile.lean`): for every list of
+statements of the larger fragment under every admissible layout, the model of `Grammar::parse` returns
+the grammar, and for each statement — the span of the command name, of the `<NAME>` / `<NAME@SHELL>`
+head, of the shell name, and of every node of the expression — the span starts at the line (1 + line
+feeds before) and byte column (1 + bytes since the last line feed) of the offset of the first
+character of the text it belongs to (`stmtOffs` lists the offsets, `stmtTexts` the texts found there). -/
+theorem span_sound_file (g : Grammar) (hg : ∀ st ∈ g, Full.StmtNF' st) (G : Full.GLayout') (adm : G.Adm g) :
+    ∃ g', parse (Full.ppGrammarL' G g) = .ok g' ∧ g'.map Stmt.eraseSpans = g.map Stmt.eraseSpans ∧
+      ∀ i st, g[i]? = some st → ∃ st', g'[i]? = some st' ∧
+        (∃ post, Full.ppGrammarL' G g =
+          (Full.ppGrammarL' G g).take (Full.stmtOffset G g i) ++ Full.ppBodyL' (G.stmt i) st ++ post) ∧
+        Full.StmtPlaced (G.stmt i) ((PState.init (Full.ppGrammarL' G g)).adv (Full.stmtOffset G g i)) st st' ∧
+        Full.stmtSpans st' =
+          (Full.stmtOffs (G.stmt i) (Full.stmtOffset G g i) st).map (spanAt (PState.init (Full.ppGrammarL' G g))) ∧
+        (Full.stmtOffs (G.stmt i) (Full.stmtOffset G g i) st).map (slice (Full.ppGrammarL' G g)) =
+          Full.stmtTexts (G.stmt i) st ∧
+        ∀ sp ∈ Full.stmtSpans st', ∃ ab ∈ Full.stmtOffs (G.stmt i) (Full.stmtOffset G g i) st,
+          sp.line = 1 + ((Full.ppGrammarL' G g).take ab.1).count '\n' ∧
+          sp.cs = 1 + bytesLen (Pos.lastLine ((Full.ppGrammarL' G g).take ab.1)) :=
+  grammar_spans_in_file g hg G adm
 
 end Complgen.Props.C13
